@@ -2686,7 +2686,7 @@ void getSnapshotData_double_1D(double** data, size_t dataSeriesLength, TightData
 #ifdef HAVE_TIMECMPR				
 				if(confparams_dec->szMode == SZ_TEMPORAL_COMPRESSION)
 				{
-					if(multisteps->compressionType == 0) //snapshot
+					if(compressionType == 0) //snapshot
 						decompressDataSeries_double_1D(data, dataSeriesLength, hist_data, tdps);
 					else
 						decompressDataSeries_double_1D_ts(data, dataSeriesLength, hist_data, tdps);					
@@ -2804,7 +2804,7 @@ void getSnapshotData_double_4D(double** data, size_t r1, size_t r2, size_t r3, s
 #ifdef HAVE_TIMECMPR					
 				if(confparams_dec->szMode == SZ_TEMPORAL_COMPRESSION)
 				{
-					if(multisteps->compressionType == 0)
+					if(compressionType == 0)
 						decompressDataSeries_double_4D(data, r1, r2, r3, r4, hist_data, tdps);
 					else
 						decompressDataSeries_double_1D_ts(data, r1*r2*r3*r4, hist_data, tdps);					
